@@ -20,7 +20,7 @@ pub fn property() -> Property {
     Property {
         id: "C13",
         level: "fault_enumeration",
-        rule: "Real loopback sockets; peers are harness threads with scripted stalls. Stall point in {upload not read (8 MiB body), inside the status line, between header lines, after the blank line, after k body bytes (length / close framing), inside a chunk-size line, inside chunk data, before the terminal chunk, during the TLS handshake of a direct https dial, inside the CONNECT reply, inside the tunnel} x {silent stall, one byte every R/3} x timeouts {T=300 ms, T=150 ms, T=300 ms + R=100 ms, R=150 ms alone, T=0 (deadline already expired when the connection is made), T=20 s + R=150 ms (the read timeout must fire although an overall timeout is set)} and redirect chains of fast hops that together exceed T. Oracle: (a) the call returns Err within T (or R) + 1.5 s although the peer would hold it for 20 s; (d) the first end-of-body signal is never Ok for a body the peer had not finished; (c) converse histories - complete responses of every framing, read with loops of several buffer sizes plus up to 5 further reads after end-of-body spread over 200 ms - never see TimedOut (nor any error) before t0+T; (e) 250 ms after the response/error is dropped the process has no more threads or file descriptors than before the case. Hook H3 (schedule points in the watchdog thread and around the reader's end-of-stream ping) holds either thread at each label in turn (<= 400 ms) for the scenarios {genuine end of stream before the deadline, stall cut by the deadline} x {close-delimited, length-delimited}; the recorded label sequences are the distinct interleavings observed. Load probe: a case whose 20 ms sleep oversleeps by > 150 ms is retried (x3) and then counted inconclusive, never as a violation. Non-trivial: every scenario; distinct = hash(scenario).",
+        rule: "Real loopback sockets; peers are harness threads with scripted stalls. Stall point in {upload not read (8 MiB body), inside the status line, between header lines, after the blank line, after k body bytes (length / close framing), inside a chunk-size line, inside chunk data, before the terminal chunk, during the TLS handshake of a direct https dial, inside the CONNECT reply, inside the tunnel} x {silent stall, one byte every R/3} x timeouts {T=300 ms, T=150 ms, T=300 ms + R=100 ms, R=150 ms alone, T=0 (deadline already expired when the connection is made), T=20 s + R=150 ms (the read timeout must fire although an overall timeout is set)} and redirect chains of fast hops that together exceed T. Oracle: (a) the call returns Err within T (or R) + 1.5 s although the peer would hold it for 20 s; (d) the first end-of-body signal is never Ok for a body the peer had not finished; (c) converse histories - complete responses of every framing, read with loops of several buffer sizes plus up to 5 further reads after end-of-body spread over 200 ms - never see TimedOut (nor any error) before t0+T; (e) 250 ms after the response/error is dropped the process has no more threads or file descriptors than before the case. Hook H3 (schedule points in the watchdog thread and around the reader's end-of-stream ping) holds either thread at each label in turn (<= 400 ms) for the scenarios {genuine end of stream before the deadline, stall cut by the deadline} x {close-delimited, length-delimited}; the recorded label sequences are the distinct interleavings observed. Resource fault 'fd-exhaustion': RLIMIT_NOFILE is lowered and the descriptor table filled so that k in {0,1,2,3} slots are free when the connection is made (k=1: the socket can be opened, the watchdog's own handle on it cannot) against a listener that never answers: the call still returns within T + margin. Load probe: a case whose 20 ms sleep oversleeps by > 150 ms is retried (x3) and then counted inconclusive, never as a violation. Non-trivial: every scenario; distinct = hash(scenario).",
         assumptions: &["the connect phase is outside the statement and not judged", "Linux loopback; Windows branches are not run", "reads issued only after T has passed are not judged (the exchange as a whole exceeded T)"],
         min_nontrivial: |t| t.pick(60, 400),
         gens,
@@ -34,6 +34,7 @@ fn gens(tier: Tier) -> Vec<Gen> {
         Gen { name: "stalls", count: stall_count(tier), exhaustive: tier == Tier::Thorough, run: run_stall },
         Gen { name: "converse", count: tier.pick(24, 400), exhaustive: false, run: run_converse },
         Gen { name: "interleavings", count: (2 * 2 * 6) as u64, exhaustive: true, run: run_interleaving },
+        Gen { name: "fd-exhaustion", count: (4 * 2) as u64, exhaustive: true, run: run_fd_exhaustion },
         Gen { name: "redirect-chain", count: tier.pick(2, 8), exhaustive: false, run: run_redirect_chain },
     ]
 }
@@ -558,4 +559,80 @@ fn run_redirect_chain(ctx: &mut Ctx, _rng: &mut Rng, index: u64) {
     }
     ctx.nontrivial(format!("chain{index}").as_bytes());
     ctx.sample(|| json!({"scenario": "redirect-chain", "elapsed_ms": elapsed.as_millis() as u64, "outcome": format!("{outcome:?}")}));
+}
+
+// ---- resource fault: the process is at its descriptor limit when the connection is made ------------
+//
+// With k free descriptor slots (k = 0: not even the socket; k = 1: the socket but not the
+// watchdog's own handle on it; k >= 2: everything) and a peer that takes the connection and
+// the request but never answers, the call still returns within T + margin - with whatever error.
+
+extern "C" {
+    fn getrlimit(resource: i32, rlim: *mut [u64; 2]) -> i32;
+    fn setrlimit(resource: i32, rlim: *const [u64; 2]) -> i32;
+}
+const RLIMIT_NOFILE: i32 = 7;
+
+fn run_fd_exhaustion(ctx: &mut Ctx, _rng: &mut Rng, index: u64) {
+    let free = (index % 4) as usize;
+    let t_ms = [300u64, 150][((index / 4) % 2) as usize];
+    let r_ms = 6_000u64;
+    for attempt in 0..3 {
+        if oversleep() > Duration::from_millis(150) {
+            if attempt == 2 {
+                ctx.inconclusive("machine too loaded for a timing case (3 attempts)");
+            }
+            continue;
+        }
+        // the listener's backlog completes the connection and the socket buffer takes the
+        // request; nobody ever accepts or answers
+        let listener = std::net::TcpListener::bind("127.0.0.1:0").expect("bind");
+        let port = listener.local_addr().unwrap().port();
+        let leak = LeakGuard::start();
+        let max_fd = std::fs::read_dir("/proc/self/fd").map(|d| d.filter_map(|e| e.ok()?.file_name().to_str()?.parse::<u64>().ok()).max().unwrap_or(64)).unwrap_or(64);
+        let mut old = [0u64; 2];
+        if unsafe { getrlimit(RLIMIT_NOFILE, &mut old) } != 0 {
+            ctx.inconclusive("getrlimit failed");
+            return;
+        }
+        let lowered = [(max_fd + 1 + 48).min(old[0]), old[1]];
+        if unsafe { setrlimit(RLIMIT_NOFILE, &lowered) } != 0 {
+            ctx.inconclusive("setrlimit failed");
+            return;
+        }
+        let mut fillers: Vec<std::fs::File> = Vec::new();
+        while let Ok(f) = std::fs::File::open("/dev/null") {
+            fillers.push(f);
+            if fillers.len() > 100_000 {
+                break;
+            }
+        }
+        let filled = fillers.len();
+        for _ in 0..free.min(fillers.len()) {
+            fillers.pop();
+        }
+        let rb = attohttpc::post(format!("http://127.0.0.1:{port}/c13-fd")).bytes(b"hello".to_vec()).timeout(Duration::from_millis(t_ms)).read_timeout(Duration::from_millis(r_ms)).connect_timeout(Duration::from_secs(5));
+        let res = call(rb);
+        drop(fillers);
+        unsafe { setrlimit(RLIMIT_NOFILE, &old) };
+        drop(listener);
+        let bound = Duration::from_millis(t_ms) + MARGIN;
+        let descr = format!("{free} free descriptor slots when the connection is made ({filled} fillers), T={t_ms} ms R={r_ms} ms, silent peer: returned after {:?} with {:?}", res.elapsed, res.error);
+        ctx.set_add("fd_exhaustion_outcomes", format!("free={free}: {}", res.error.as_deref().unwrap_or("ok").chars().take(90).collect::<String>()));
+        if res.elapsed > bound {
+            if attempt < 2 {
+                ctx.count("timing_verdicts_rechecked", 1);
+                continue;
+            }
+            ctx.violation(format!("timing:not-bounded:fd-exhaustion:free={free}"), format!("the call outlived its bound of {bound:?}; {descr}"));
+        } else if res.error.is_none() {
+            ctx.violation("no-error:fd-exhaustion", format!("no error although the peer never answered; {descr}"));
+        } else if let Some(l) = leak.check() {
+            ctx.violation("leak-after-drop:fd-exhaustion", format!("{l} 250 ms after the error was dropped; {descr}"));
+        }
+        ctx.count("fd_exhaustion_scenarios", 1);
+        ctx.max("fd_exhaustion_elapsed_ms_max", res.elapsed.as_millis() as u64);
+        break;
+    }
+    ctx.nontrivial(format!("fdx{index}").as_bytes());
 }
